@@ -62,7 +62,12 @@ def cases(draw, tier):
             vals.append(-1.0)
         else:
             vals.append(draw(st.floats(0., 10., allow_nan=False)))
-    return {"day": draw(st.integers(0, 20000)),
+    # first day: 1970-2024 mostly, else anywhere in the range a nanosecond
+    # index can hold (1682 .. 2257: historical records, projections)
+    return {"day": draw(st.one_of(st.integers(0, 20000), st.integers(0, 20000),
+                                  st.integers(-105000, 105000),
+                                  st.sampled_from([-53000, 53400, 53500,
+                                                   -53400, 104000, -104000]))),
             "offset": draw(st.one_of(st.integers(0, 7199),
                                      st.sampled_from([0, 1800, 3600, 3599]))),
             "steps": steps, "vals": vals,
@@ -129,7 +134,9 @@ def make_index(t0, secs, unit, zone, regular=False):
     if zone == "Australia/Brisbane" and t0 < pd.Timestamp("1994-01-01"):
         # Queensland observed daylight saving in 1971-72 and 1989-92: a
         # DST change inside the series is outside the stated domain
-        zone = "Asia/Tokyo"
+        # (Japan observed it in 1948-51 and used local mean time before
+        # 1888: a fixed offset there)
+        zone = "Asia/Tokyo" if t0 >= pd.Timestamp("1952-01-01") else "+10:00"
     if zone is not None:
         idx = idx.tz_localize(zone)
     return idx
@@ -178,6 +185,10 @@ def _oracle(case):
     labels = [f"unit:{case['unit']}", f"zone:{case['zone']}",
               f"regime:{case['regime']}", f"P:{P}",
               f"rainfall:{rainfall}"]
+    if not 0 <= case["day"] <= 20000:
+        labels.append("first-day:" + ("before-1824-or-after-2116"
+                                      if abs(case["day"]) > 53300
+                                      else "outside-1970..2024"))
     ts = [int((t0 - pd.Timestamp("1970-01-01")).total_seconds()) + int(s)
           for s in secs]
     h0 = pd.Timestamp(t0.year, t0.month, t0.day, t0.hour) \
